@@ -1,7 +1,7 @@
 SPECIFICATION Spec
 CONSTANTS
   MaxLen = 5
-  Atoms = {"G1", "G3", "p", "p:", "{", "}", ";", "(", ")"}
+  Atoms = {"G1", "G3", "p", "p:", "{", "}", ";", "f(", ")"}
   Emit = TRUE
   EmitOneIn = 1
 INVARIANTS Inv_Syntax Inv_Stop Inv_Emit
